@@ -48,7 +48,11 @@ valid_query = st.fixed_dictionaries({'src': st.just('vquery'), 'what': st.sample
                                      'qu': st.booleans(), 'tc': st.sampled_from([False, False, True])})
 valid_resp = st.fixed_dictionaries({'src': st.just('vresp'), 'inst': st.sampled_from([0, 0, 0, 1, 1, 2, 3]),
                                     'ttl': st.sampled_from([0, 0, 1, 120, 4500, 4500]), 'flush': st.booleans(),
-                                    'repeat': st.sampled_from([0, 0, 1, 2, 2]), 'recase': st.sampled_from([False, False, True])})
+                                    'repeat': st.sampled_from([0, 0, 1, 2, 2]), 'recase': st.sampled_from([False, False, True]),
+                                    # the announcement may end with an address record of the SRV target, and the datagram may be cut
+                                    # short inside that record (a truncated copy of a valid announcement)
+                                    'addr': st.sampled_from([None, None, 'a', 'aaaa-ll', 'aaaa-ll', 'aaaa-global']),
+                                    'cut': st.sampled_from([0, 0, 1, 3, 10, 15, 16, 17])})
 
 
 @st.composite
@@ -163,7 +167,14 @@ def build(d: Dict[str, Any]) -> bytes:
             nm = name.upper() if d.get('recase') and k == 1 else name
             rrs.append(rp.wire_rr_of_ident(('PTR', TYPE_B, nm), d['ttl'] if k == 0 else 4500))
             rrs[-1]['rd']['target'] = wire.labels_of(nm)
-        return wire.encode({'id': 0, 'flags': 0x8400, 'qd': [], 'an': rrs, 'ns': [], 'ar': []})
+        if d.get('addr'):
+            ad = {'a': ('A', '0a000009'), 'aaaa-ll': ('AAAA', 'fe80000000000000000000000000abcd'),
+                  'aaaa-global': ('AAAA', '20010db8000000000000000000000009')}[d['addr']]
+            rrs.append(rp.wire_rr_of_ident((ad[0], 'peerhost.local.', ad[1]), min(d['ttl'], 120), flush=d['flush']))
+        data = wire.encode({'id': 0, 'flags': 0x8400, 'qd': [], 'an': rrs, 'ns': [], 'ar': []})
+        if d.get('addr') and d.get('cut'):
+            data = data[:-d['cut']]
+        return data
     return c02.materialise(d)
 
 
